@@ -3,6 +3,7 @@ obligations(tier): C10 (differential against the reference decoders; reference s
 obligations_c08(tier): memory safety on arbitrary bytes (names prefixed c08/), re-exported by props/C08_e1.py."""
 from e1 import E1
 FILES = ['src/compression/snappy.c', 'src/compression/lz4.c']
+BUDGET = {'quick': 900, 'thorough': 4500}
 H = 'harness/e1/c10_decomp.c'
 SN = ['src/compression/snappy.c']
 LZ = ['src/compression/lz4.c']
@@ -97,18 +98,47 @@ def script(codec, ne, litmax, cpmax, kinds=None, timeout=600):
 
 
 def obligations_c08(tier):
+    """memory safety on arbitrary bytes; measured: 8 bytes x capacity 24 in 45 s, 10 x 32 in 180 s, 12 x 40 in 540 s"""
     quick = tier == 'quick'
-    o = []
-    for codec in (0, 1):
-        for l in range(0, 7 if quick else 9):
-            o.append(safety(codec, l, 16 if quick else 24))
-    return o
+    grid = [(l, 24) for l in range(9)] if quick else [(l, 32) for l in range(12)] + [(12, 40)]
+    return [safety(codec, l, cap, timeout=600 if quick else 1800) for codec in (0, 1) for l, cap in grid]
 
 
 def obligations(tier):
     quick = tier == 'quick'
     o = []
+    # (a) differential against the reference decoders.  Measured frontier (minisat): 8 bytes x capacity 24 gives no verdict in 900 s,
+    # 7 x 16 takes 240 s, 8 x 12 takes 140-250 s
+    grid = [(l, 16) for l in range(7)] if quick else [(l, 24) for l in range(7)] + [(7, 16), (8, 12)]
     for codec in (0, 1):
-        for l in range(0, 7 if quick else 9):
-            o.append(differential(codec, l, 16 if quick else 24))
+        for l, cap in grid:
+            o.append(differential(codec, l, cap, timeout=600 if quick else 1500))
+    # (b) independent-encoder direction: reference script encoder -> carquet decoder
+    o.append(script(0, 1, 3, 12))                    # one literal, every length form
+    o.append(script(0, 2, 3, 12))                    # literal + any element: all copy kinds, overlapping copies (offset < length)
+    o.append(script(1, 1, 20, 0))                    # LZ4: one literals-only sequence, lengths 0..20 (15+ uses an extension byte)
+    o.append(script(1, 2, 3, 12))
+    o.append(script(1, 2, 2, 24))                    # match lengths >= 19: extension byte
+    o.append(script(1, 2, 17, 5))                    # literal lengths >= 15 before a match
+    o.append(script(1, 3, 2, 6))
+    three = ['012', '031'] if quick else ['0%d%d' % (a, b) for a in range(4) for b in range(4)]
+    for k in three:
+        o.append(script(0, 3, 2, 8, kinds=k, timeout=900))
+    if not quick:
+        o.append(script(0, 1, 64, 4, timeout=900))  # literal lengths 61..64: the one-byte length form is then the shortest
+        o.append(script(0, 2, 2, 24, timeout=900))
+        o.append(script(0, 3, 3, 12, kinds='012', timeout=1200))
+        o.append(script(1, 3, 2, 8, timeout=900))
     return o
+
+
+# attempted without a verdict (not claimed): differential 8 bytes x capacity 24 (900 s, 4 back ends); Snappy script with a 260-byte literal
+# (real 2-byte length value) and with copies up to 64 bytes (400 s); LZ4 script n=2 with literals <= 17 AND matches <= 21 (400 s), n=3 with lit 3 / match 12 (300 s)
+OUTSIDE = ['inputs longer than 8 bytes with all bytes symbolic; 8-byte inputs with capacity > 12; 7-byte inputs with capacity > 16',
+           'Snappy literal lengths > 64 (the 2/3/4-byte length forms are exercised with small values only), copies longer than 24 bytes in scripts',
+           'scripts of more than 3 elements; LZ4 literal runs >= 15 together with extended match lengths in one script',
+           'LZ4: empty input and blocks ending right after a match are deliberately not compared on the accept side (carquet accepts both; see bounds)']
+
+
+def evidence_extra(tier):
+    return {'c10_e1_outside': OUTSIDE}
